@@ -493,6 +493,25 @@ func tamper(rt *rapid.T, nodes *[]*wmpt.PersistNodeBase, other []*wmpt.PersistNo
 			return ""
 		}
 		ns[vi] = &wmpt.PersistNodeBase{Value: &nv}
+		// a branch further up may carry the short node embedded in its child record (hash, weight, value reference, key
+		// rest): half of the time that copy of the value reference is rewritten too, the short node's own hash stays
+		if gen.Chance(rt, 50, label+"deep") {
+			for up := vi - 1; up >= 0; up-- {
+				if b := ns[up].Branch; b != nil {
+					for ci, c := range b.Children {
+						if len(c) >= 72 && bytes.Equal(c[40:72], oldHash) {
+							br := *b
+							br.Children = append([][]byte(nil), b.Children...)
+							cc := append([]byte(nil), c...)
+							copy(cc[40:72], nv.Hash)
+							br.Children[ci] = cc
+							ns[up] = &wmpt.PersistNodeBase{Branch: &br}
+							kind = "relink-value-and-embedded-reference"
+						}
+					}
+				}
+			}
+		}
 	case "leaf-value", "leaf-weight":
 		for _, n := range ns {
 			if n.Value != nil {
